@@ -8,6 +8,7 @@ import (
 	"fmt"
 	"os"
 	"path/filepath"
+	"sync/atomic"
 	"testing"
 	"time"
 
@@ -26,7 +27,7 @@ const prop = "C15"
 func TestMain(m *testing.M) { pbt.Main(m) }
 
 type Action struct {
-	Op   string `json:"op"` // campaign renew resign leader advance lose stop
+	Op   string `json:"op"` // campaign renew resign leader advance lose stop slow
 	I    int    `json:"i,omitempty"`
 	Ms   int64  `json:"ms,omitempty"`
 	Exec bool   `json:"exec,omitempty"` // lose: the request was executed before the connection died
@@ -44,7 +45,11 @@ func genCase(t *rapid.T) Case {
 	n := rapid.IntRange(5, 40).Draw(t, "nactions")
 	for i := 0; i < n; i++ {
 		a := Action{I: rapid.IntRange(0, c.N-1).Draw(t, "i")}
-		switch w := rapid.IntRange(0, 19).Draw(t, "op"); {
+		switch w := rapid.IntRange(0, 21).Draw(t, "op"); {
+		case w >= 20:
+			// the call is made with a deadline (the renew loop uses LeaseRenewInterval) and the lease store answers after it
+			a.Op = "slow"
+			a.Next = rapid.SampledFrom([]string{"campaign", "renew", "renew"}).Draw(t, "slowNext")
 		case w < 5:
 			a.Op = "campaign"
 		case w < 10:
@@ -244,6 +249,70 @@ func run(c Case) (fs []failure, inconc string, facts map[string]bool) {
 				return fs, "reconnect: " + err.Error(), facts
 			}
 			pendingLoss = nil
+		case "slow":
+			if x.stopped && a.Next == "renew" {
+				continue
+			}
+			// the request is executed by the lease store, but only after the caller's deadline has passed
+			var seen atomic.Bool
+			srv.Lock()
+			srv.Delay = func(cmd string, args [][]byte) time.Duration {
+				if cmd == "eval" && len(args) >= 4 && string(args[3]) == x.id && !seen.Swap(true) {
+					return 60 * time.Millisecond
+				}
+				return 0
+			}
+			before := 0
+			for _, r := range srv.Reqs {
+				if r.Cmd == "eval" {
+					before++
+				}
+			}
+			srv.Unlock()
+			want := modelCampaign(x.id)
+			dctx, cancel := context.WithTimeout(ctx, 15*time.Millisecond)
+			var got bool
+			var err error
+			if a.Next == "campaign" {
+				var role cluster.ClusterRole
+				role, err = x.el.Campaign(dctx)
+				got = role == cluster.RoleLeader
+			} else {
+				err = x.el.Renew(dctx)
+				got = err == nil
+			}
+			cancel()
+			// whatever the call returned, the store executes the request; wait for that so that the order of executions is the order of the actions
+			deadline := time.Now().Add(5 * time.Second)
+			for {
+				srv.Lock()
+				n := 0
+				for _, r := range srv.Reqs {
+					if r.Cmd == "eval" {
+						n++
+					}
+				}
+				srv.Delay = nil
+				srv.Unlock()
+				if n > before {
+					break
+				}
+				if time.Now().After(deadline) {
+					return fs, "the delayed lease request was never executed", facts
+				}
+				time.Sleep(time.Millisecond)
+			}
+			facts["call-past-its-deadline"] = true
+			switch {
+			case err != nil && !errors.Is(err, cluster.ErrNotLeader):
+				// the call gave up (deadline): the instance learns nothing; an earlier belief simply runs out
+			case got != want:
+				fs = append(fs, failure{a.Next + "-outcome-differs-from-model", fmt.Sprintf("step %d: late %s by %s returned leader=%v, the lease rules say %v (holder %q)", step, a.Next, x.id, got, want, holder)})
+			case got:
+				x.believes = now + ttlMs
+			default:
+				x.believes = 0
+			}
 		case "campaign", "renew":
 			if x.stopped && a.Op == "renew" {
 				continue
